@@ -151,6 +151,53 @@ func checkReadBack(c *mon.Case, st *store.Store, root cid.Cid, content []byte, w
 				c.Count("kept_values_rechecked", int64(len(c01Kept)))
 			}
 		})
+		// two readers of ONE node read alternately, and a reader paused mid-file while the node's
+		// whole value is taken: readers of one node are independent of each other
+		if len(content) > 0 && len(content) <= 1<<16 {
+			c.Guard("two live readers of one node", func() {
+				lbp, ok := n.(largeBytes)
+				if !ok {
+					return
+				}
+				ra, err := lbp.AsLargeBytes()
+				if err != nil {
+					return
+				}
+				rb, err := lbp.AsLargeBytes()
+				if err != nil {
+					return
+				}
+				var ga, gb []byte
+				var ea, eb error
+				bufA, bufB := make([]byte, 3), make([]byte, 2)
+				step := func(r io.Reader, buf []byte, acc *[]byte, e *error) {
+					if *e != nil {
+						return
+					}
+					k, err := r.Read(buf)
+					*acc = append(*acc, buf[:k]...)
+					*e = err
+				}
+				for i := 0; (ea == nil || eb == nil) && i < 2*len(content)+16; i++ {
+					step(ra, bufA, &ga, &ea)
+					if i == len(content)/6 {
+						// the paused moment: a whole-value pass over the same node
+						b, err := n.AsBytes()
+						cmp("AsBytes-beside-live-readers", b, err)
+					}
+					step(rb, bufB, &gb, &eb)
+				}
+				if ea == io.EOF {
+					ea = nil
+				}
+				if eb == io.EOF {
+					eb = nil
+				}
+				cmp("interleaved-reader-a", ga, ea)
+				cmp("interleaved-reader-b", gb, eb)
+				c.Count("interleaved_reader_pairs", 1)
+			})
+		}
 		// a size probe at the end, a read there (end of file), then rewind and stream
 		c.Guard("probe end, read there, rewind, stream", func() {
 			lbp, ok := n.(largeBytes)
@@ -541,7 +588,14 @@ func TestC01(t *testing.T) {
 	}
 	// hand-made files: legal shapes no importer emits (no blocksizes and/or no
 	// filesize, dag-pb leaves of type Raw or File, CIDv0)
-	for _, o := range handVariants() {
+	handAll := append(handVariants(),
+		handFileOpts{Width: 3, PBLeaves: true, LeafType: 2, EmptyData: true},
+		handFileOpts{Width: 2, PBLeaves: false, EmptyData: true},
+		handFileOpts{Width: 3, PBLeaves: false, InlineOdd: true},
+		handFileOpts{Width: 2, PBLeaves: true, LeafType: 2, InlineOdd: true},
+		handFileOpts{Width: 3, PBLeaves: true, LeafType: 2, NoBlockSize: true, PBTsize: 2},
+		handFileOpts{Width: 2, PBLeaves: true, LeafType: 0, NoBlockSize: true, NoFileSize: true, PBTsize: 2})
+	for _, o := range handAll {
 		for _, n := range []int{1, 2, 3, 5, 9, 10} {
 			o, n := o, n
 			desc := map[string]any{"opts": fmt.Sprintf("%+v", o), "chunks": n}
